@@ -45,9 +45,15 @@ def gen(rng, n):
     return [float(x) for x in v], klass, eps, suc, bool(box)
 
 
+SESSION = []      # calls made so far in this process (most recent last): part of every replay
+
+
 def one(ctx, A, p, klass, eps, suc, box, bits_vec):
     drv = ctx.driver()
     n = len(p) - 1
+    # the replayed session: every degenerate / out-of-box call made so far plus the six most recent calls
+    before = [c for i, c in enumerate(SESSION) if c.get("special") or i >= len(SESSION) - 6]
+    SESSION.append({"p": list(p), "eps": eps, "suc": suc, "seed_bits": bits_vec, "special": n == 0 or not box})
     try:
         with core.quiet(), P.forced_seed(bits_vec):
             ph = A.angle_sequence(list(p), eps=eps, suc=suc)
@@ -57,11 +63,14 @@ def one(ctx, A, p, klass, eps, suc, box, bits_vec):
     ctx.count("outcome:" + out[0])
     ctx.count("class:" + klass)
     ctx.case([p, eps, suc, bits_vec], True, {"n": n, "class": klass, "eps": eps, "suc": suc, "in_box": box, "seed_bits": bits_vec, "outcome": out[0]})
-    replay = {"p": p, "eps": eps, "suc": suc, "seed_bits": bits_vec, "class": klass, "in_box": box}
+    replay = {"p": p, "eps": eps, "suc": suc, "seed_bits": bits_vec, "class": klass, "in_box": box, "session_before": before}
     if out[0] != "ok":
         if box:
             capital = min(abs(suc * (p[0] + eps / 4)), abs(suc * (p[-1] + eps / 4)))
-            sig = "%s:%s:%s" % (out[0], root_signature_c07(p, eps, suc), "tiny-capitalised-extreme" if capital < 1e-3 else "extremes>=1e-3")
+            if n == 0:
+                sig = "%s:constant:degree-zero" % out[0]
+            else:
+                sig = "%s:%s:%s" % (out[0], root_signature_c07(p, eps, suc), "tiny-capitalised-extreme" if capital < 1e-3 else "extremes>=1e-3")
             replay["signature_detail"] = {"min_capitalised_extreme": capital}
             ctx.violation("c07:box-raises:" + sig, "angle_sequence raises (%s) inside the stated box (1-norm<=0.9, n<=12, eps, suc in range)" % out[0], replay)
         return out
@@ -146,6 +155,18 @@ def run(tier, seed):
         one(ctx, A, c["p"], c.get("class", "?"), c["eps"], c["suc"], c.get("in_box", False), c.get("seed_bits"))
         ctx.count("corpus")
     for n, reps in plan:
+        # a session, not isolated calls: a constant (n = 0) request and an out-of-box request sit between
+        # the blocks; whatever they do, later in-box calls must still return certified phases
+        c = float(rng.uniform(-0.9, 0.9))
+        one(ctx, A, [c], "constant", float(10 ** rng.uniform(-5, -2)), float(1 - 10 ** rng.uniform(-5, -2)), True, None)
+        try:
+            oob = [float(x) for x in rng.normal(size=n + 1)]
+            SESSION.append({"p": oob, "eps": 1e-3, "suc": 0.999, "seed_bits": None, "special": True})
+            with core.quiet():
+                A.angle_sequence(oob, eps=1e-3, suc=0.999)
+            ctx.count("session:out-of-box-call-returned")
+        except Exception:  # noqa
+            ctx.count("session:out-of-box-call-raised")
         for _ in range(reps):
             p, klass, eps, suc, box = gen(rng, n)
             with core.quiet(), P.forced_seed([0] * 256) as calls:
@@ -168,6 +189,12 @@ def replay(path):
     c = json.load(open(path))
     ctx = core.Ctx(PROP, "quick", c.get("seed", 0), "translation_validation", ["C07"])
     import pyqsp.angle_sequence as A
+    for prev in c.get("session_before", []):      # re-create the session the case was observed in
+        try:
+            with core.quiet(), P.forced_seed(prev.get("seed_bits")):
+                A.angle_sequence(list(prev["p"]), eps=prev["eps"], suc=prev["suc"])
+        except Exception:  # noqa
+            pass
     out = one(ctx, A, c["p"], c.get("class", "?"), c["eps"], c["suc"], c.get("in_box", False), c.get("seed_bits"))
     print("outcome:", out[0])
     for sig, what, p, _ in ctx.violations:
